@@ -187,10 +187,23 @@ def check_scan_loop(ctx, T):
     check_normalisation(ctx, f, textvar, outer, itdef)
     # (b) inner loop
     inner = [s for s in outer.body if isinstance(s, ast.For)]
-    ctx.need(len(inner) == 1 and outer.body[0] is inner[0],
+    # single-character fast paths in front of the rule loop: `if <test on the character>: yield <type>, <char>; continue` emits
+    # exactly the current character and moves on by one -- lossless whatever the test is (whether the type is the one the table
+    # would give is the business of the table-reading properties, decided by R<k>.S)
+    npre = 0
+    while npre < len(outer.body) and inner and outer.body[npre] is not inner[0]:
+        st = outer.body[npre]
+        okp = isinstance(st, ast.If) and not st.orelse and len(st.body) == 2 and isinstance(st.body[1], ast.Continue) \
+            and isinstance(st.body[0], ast.Expr) and isinstance(st.body[0].value, ast.Yield) and isinstance(st.body[0].value.value, ast.Tuple) \
+            and len(st.body[0].value.value.elts) == 2 and is_name(st.body[0].value.value.elts[1], charvar)
+        if not okp:
+            break
+        ctx.ob('R1.4', f'fast-path:{npre}', f'{f.mod.relpath}:{st.lineno}', f'fast path `if {src(st.test)[:50]}` yields exactly the current character and continues', True)
+        npre += 1
+    ctx.need(len(inner) == 1 and npre < len(outer.body) and outer.body[npre] is inner[0],
              f'{oloc}: body of the scan loop does not start with a single `for ... in self._SQL_REGEX:` rule loop')
     inner = inner[0]
-    rest = outer.body[1:]
+    rest = outer.body[npre + 1:]
     iloc = f'{f.mod.relpath}:{inner.lineno}'
     ok_b = is_attr(inner.iter, '_SQL_REGEX', 'self') and isinstance(inner.target, ast.Tuple) and len(inner.target.elts) == 2 \
         and all(isinstance(e, ast.Name) for e in inner.target.elts)
